@@ -281,7 +281,11 @@ class Engine(NumericMixin, EvalMixin, ExecMixin, CallMixin, BuiltinMixin):
                     started = True
                 if not started:
                     continue
-                status, model = self.solve(o, max(self.timeout_ms * 3, 120000))
+                if self.solve_fresh(o):
+                    status, model = 'unsat', None
+                    rec['backend'] = 'z3 (in-process attempts) + z3 5.1 CLI in a fresh process'
+                else:
+                    status, model = self.solve(o, max(self.timeout_ms * 3, 120000))
                 if status == 'unsat':
                     continue
                 ok = False
@@ -307,8 +311,11 @@ class Engine(NumericMixin, EvalMixin, ExecMixin, CallMixin, BuiltinMixin):
         ss.spec = True
         self.eval_lets(spec, ss)
         st.env.update({k: v for k, v in ss.env.items() if k in spec.lets})
-        for r in spec.requires:
+        self.requires_ids = {}
+        for j_, r in enumerate(spec.requires):
+            n0_ = len(st.pc)
             st.assume(self.spec_eval_bool(r, st))
+            self.requires_ids[j_] = {p_.get_id() for p_ in st.pc[n0_:]}
         # vacuity guard: the precondition must be satisfiable
         s = z3.Solver()
         s.set('timeout', 5000)
@@ -551,6 +558,27 @@ class Engine(NumericMixin, EvalMixin, ExecMixin, CallMixin, BuiltinMixin):
         s.set('auto_config', False)
         s.set('smt.mbqi', False)
         ax = [a for _, a in self.axioms()]
+        # hidden hypotheses (`hide` of a loop contract: preconditions this loop's preservation step does not need; dropping
+        # hypotheses only weakens what is assumed, so `unsat` stays a proof).  A first attempt is made on the reduced
+        # context; the full context is used afterwards.
+        hidden = self.hidden_for(ob)
+        if hidden:
+            pc_small = [p_ for p_ in ob.pc if p_.get_id() not in hidden]
+            for mbqi_ in (False, True):
+                s = z3.Solver()
+                s.set('timeout', min(8000, max(3000, timeout_ms // 2)))
+                if not mbqi_:
+                    s.set('auto_config', False)
+                    s.set('smt.mbqi', False)
+                s.add(ax)
+                s.add(pc_small)
+                s.add(z3.Not(ob.goal))
+                if s.check() == z3.unsat:
+                    return 'unsat', None
+        s = z3.Solver()
+        s.set('timeout', min(4000, max(2000, timeout_ms // 2)))
+        s.set('auto_config', False)
+        s.set('smt.mbqi', False)
         s.add(ax)
         s.add(ob.pc)
         s.add(z3.Not(ob.goal))
@@ -584,6 +612,20 @@ class Engine(NumericMixin, EvalMixin, ExecMixin, CallMixin, BuiltinMixin):
                 r, s0 = r_, s
                 if r_ == z3.sat:
                     break
+            else:
+                # the same seed with E-matching only: on large verification conditions either configuration may be the one
+                # that happens to find the instances (a verdict must not depend on which)
+                s2 = z3.Solver()
+                s2.set('timeout', 4000)
+                s2.set('auto_config', False)
+                s2.set('smt.mbqi', False)
+                s2.set('random_seed', seed_)
+                s2.set('smt.random_seed', seed_)
+                s2.add(ax)
+                s2.add(ob.pc)
+                s2.add(z3.Not(ob.goal))
+                if s2.check() == z3.unsat:
+                    return 'unsat', None
         s = s0
         if r == z3.unsat:
             return 'unsat', None
@@ -593,6 +635,66 @@ class Engine(NumericMixin, EvalMixin, ExecMixin, CallMixin, BuiltinMixin):
                 return 'unknown', None
             return 'sat', self.concretize(m, ob)
         return 'unknown', None
+
+    def solve_fresh(self, ob, timeout_s=90):
+        """last resort of the retry pass: the same query (axioms + path condition + negated goal) exported as SMT-LIB and
+        given to fresh z3 processes (CLI of the z3-solver wheel), default and E-matching-only configurations in parallel.
+        The in-process context has by then seen hundreds of queries and its heuristics drift; a fresh process is a
+        different, equally valid, run.  Only `unsat` is used."""
+        import subprocess, tempfile, shutil
+        exe = shutil.which('z3-new') or shutil.which('z3')
+        if exe is None:
+            return False
+        s = z3.Solver()
+        s.add([a for _, a in self.axioms()])
+        s.add(ob.pc)
+        s.add(z3.Not(ob.goal))
+        try:
+            text = s.to_smt2()
+        except Exception:
+            return False
+        d = tempfile.mkdtemp(prefix='pyvc_')
+        try:
+            path = os.path.join(d, 'q.smt2')
+            with open(path, 'w') as f:
+                f.write(text)
+            cfgs = [[], ['smt.mbqi=false', 'auto_config=false'], ['smt.random_seed=7', 'sat.random_seed=7'], ['smt.mbqi=false', 'auto_config=false', 'smt.random_seed=23']]
+            procs = [subprocess.Popen([exe, '-T:%d' % timeout_s] + c + [path], stdout=subprocess.PIPE, stderr=subprocess.DEVNULL, text=True) for c in cfgs]
+            ok = False
+            t_end = time.time() + timeout_s + 10
+            pending = list(procs)
+            while pending and time.time() < t_end and not ok:
+                for p_ in list(pending):
+                    if p_.poll() is not None:
+                        pending.remove(p_)
+                        out = (p_.stdout.read() or '').strip().splitlines()
+                        if out and out[0].strip() == 'unsat':
+                            ok = True
+                time.sleep(0.2)
+            for p_ in procs:
+                if p_.poll() is None:
+                    p_.kill()
+            return ok
+        finally:
+            shutil.rmtree(d, ignore_errors=True)
+
+    def hidden_for(self, ob):
+        """z3 ids of the precondition conjuncts hidden from this obligation (loop contract option `hide=[requires indices]`)"""
+        import re as _re
+        m = _re.match(r'(?:case\d+:)?loop(\w+):inv-preserved', ob.name)
+        if not m:
+            return set()
+        spec = REG.fns.get(self.current_fn)
+        if spec is None:
+            return set()
+        k = m.group(1)
+        ls = spec.loops.get(int(k)) if k.isdigit() else spec.loops.get(k)
+        if ls is None or not getattr(ls, 'hide', None):
+            return set()
+        out = set()
+        for j in ls.hide:
+            out |= getattr(self, 'requires_ids', {}).get(j, set())
+        return out
 
     def solve_by_instantiation(self, ob, timeout_ms):
         """skolemise the goal's universal quantifiers, instantiate the universally quantified hypotheses at the
